@@ -22,7 +22,7 @@ CONSTANTS MaxSteps, MaxMsgs
 VARIABLES st, n, prev
 vars == <<st, n, prev>>
 
-D(k) == [vals |-> {k}, mds |-> {1, 2}, codes |-> {"OK", "NotFound"}, xs |-> {0},
+D(k) == [vals |-> {k}, mds |-> {1, 2}, codes |-> {"OK", "NotFound"}, xs |-> {0}, causes |-> {0, 1},
          maxc |-> MaxMsgs, maxs |-> MaxMsgs, dl |-> TRUE]
 
 Init == st \in { New(sh, 7) : sh \in Shapes } /\ n = 0 /\ prev = st
@@ -42,7 +42,7 @@ MsgsPrefix == IF Single(st.shape) THEN st.msgs \in {<<>>, <<st.resp>>} ELSE IsPr
 OkMeansAll == (st.term.has /\ st.src = "server" /\ st.term.code = "OK" /\ Multi(st.shape)) => st.msgs = st.ssent
 TerminalUnique == prev.term.has => (st.term = prev.term /\ st.src = prev.src /\ st.msgs = prev.msgs)
 TermSource == /\ st.src = "server" => (st.ret /\ st.term = StatusSeen(st.rcode, st.rv) /\ (st.cx # "no" => st.retAtCx))
-              /\ st.src = "ctx" => (st.cx # "no" /\ st.term.code = st.cx)
+              /\ st.src = "ctx" => (st.cx # "no" /\ st.term = Term(st.cx, ""))     \* whatever the cause
 HeaderReads == \A h \in Range(st.hdrs) : IF st.cx = "no" THEN st.hsent /\ h = st.hvis ELSE h \in {st.hvis, NoMD} \cup st.hlate
 \* once the handler has seen a cancellation nothing it does changes what the client can observe
 QuietAfterSeenCancel == prev.sawCx => /\ HdrOpts(st) \subseteq HdrOpts(prev) /\ Len(st.inflight) <= Len(prev.inflight)
